@@ -200,14 +200,47 @@ pub fn check_snapshot(
     v
 }
 
-/*
+/// Backup one input and judge the archive.
+pub fn judge_case(t: &Tree, opts: &crate::run::BOpts, tag: &str, scratch: &crate::util::Scratch) -> Vec<Violation> {
+    let src = scratch.fresh("src");
+    crate::tree::materialize(t, &src);
+    let arch = scratch.fresh("a");
+    crate::run::do_create_archive(&arch);
+    let out = crate::run::do_backup(&arch, &src, opts, crate::run::NOHOOK, crate::run::Flavor::Current);
+    if out.panicked.is_some() || out.result.is_none() {
+        return Vec::new(); // C01's business
+    }
+    let snap = Snap::load(&arch);
+    let m: BTreeMap<u32, Tree> = [(0u32, t.clone())].into_iter().collect();
+    check_snapshot(&snap, Some(&m), tag)
+}
+
+pub fn hist_oracle(tr: &crate::hist::Transition) -> Vec<Violation> {
+    check_snapshot(&tr.child.snap, Some(&tr.child.heads), &tr.at())
+}
+
 pub fn run(report: &Report, budget: &Budget) {
-    // Part 1: every archive produced by the C01 layout/structure sweep (all option points).
-    crate::c01::run_format_rider(report, budget);
-    // Part 2: every state of the history graph, and crash states of the standard scenarios.
-    crate::hist::run_rider(report, budget, crate::hist::Rider::C13);
-    crate::c14::run_crash_rider(report, budget, "C13");
+    let thorough = report.thorough();
+    // Crash states of the standard scenarios (between-operation and empty-leftover states)
+    let (cdone, ctotal) = crate::c14::run_crash_rider(report, budget, "C13");
+    // Every state of the history graph
+    let depth = if thorough { 3 } else { 2 };
+    let hb = Budget::new(if thorough { 500 } else { 15 });
+    let st = crate::hist::explore(report, &hb, "C13", depth, thorough, thorough, &hist_oracle, None, None);
+    crate::hist::write_stats(report, &st, depth);
+    // Every archive produced by the C01 sweeps (every option point)
+    let f = |c: &crate::c01::Case, t: &Tree, scratch: &crate::util::Scratch| judge_case(t, &c.opts, &c.tag, scratch);
+    let (adone, atotal) = crate::c01::for_each_case(report, budget, "C13", &f);
+    report.set("input_sweep_archives", json!(adone));
+    report.set("states", json!(st.states + adone + cdone));
+    report.set("transitions", json!(st.transitions + adone + cdone));
+    report.set("traces_validated_against_impl", json!(st.executions + adone + cdone));
+    report.set("exhaustive", json!(adone == atotal && cdone == ctotal && st.depth_completed == depth));
+    report.set("explanation", json!("every archive state reached (history graph, crash states of the standard scenarios, every input of the C01 sweeps under all 24 option points) is read by the independent format-0.6 reader and judged against doc/format.md"));
     report.assume("zero-length files are the documented leftover of a killed write and are not judged");
     report.assume("file sizes are compared with the tree model of the band's source");
 }
-*/
+
+pub fn replay_hist(case: &serde_json::Value) -> Vec<Violation> {
+    crate::hist::replay(case, &hist_oracle, None)
+}
